@@ -594,6 +594,32 @@ static void handler(vh::Reader& r, vh::Out& o)
 		o.f(M.Determinant());
 		o.f(M.Trace());
 	}
+	else if(op == "matinv")
+	{
+		// the library's own Inverse() (Gauss-Jordan with partial pivoting) and Norm() of an arbitrary rectangular matrix
+		Matrix M(r.table());
+		put_mat(o, M.Inverse());
+		o.f(M.Norm());
+	}
+	else if(op == "matorth")
+	{
+		// Invertible() and Orthogonal() (Transpose() == Inverse(), an exact comparison of doubles), Transpose() itself
+		Matrix M(r.table());
+		o.i(M.Invertible() ? 1 : 0);
+		o.i(M.Orthogonal() ? 1 : 0);
+		put_mat(o, M.Transpose());
+	}
+	else if(op == "rotinv")
+	{
+		// "transpose equals inverse" asked of the returned object itself
+		double alpha = r.num();
+		long dim	 = r.integer();
+		Vector ax(r.list());
+		Matrix R = Rotation_Matrix(alpha, (int) dim, ax);
+		put_mat(o, R.Inverse());
+		put_mat(o, R.Transpose());
+		o.f(R.Norm());
+	}
 	else if(op == "angle")
 	{
 		VecP a = rd_vec(r), b = rd_vec(r);
